@@ -585,3 +585,119 @@ def possible_route(ctx, rule):
                   'were examined' % dict(zip(keys, items[0])),
                   ctx.loc(f, n.ast))
     return len(init)
+
+
+def route_cache_covers_inbound(ctx, rule):
+    """_possible_route takes a missing cache entry for "no execution".  The
+    refill (_prepare_task_executions_cache(task_spec)) must therefore put an
+    entry (an execution or None) for every inbound task of task_spec:
+    _find_all_parent_task_names(task_spec) has to contain the name of every
+    inbound task, i.e. the name of the task it is called for at every depth
+    above one, and every name gets an entry."""
+    from mstatic.rules import dt
+    prog = ctx.prog
+    f = prog.func(DWC + '._find_all_parent_task_names')
+    try:
+        mx = prog.const('mistral.workflow.direct_workflow',
+                        'MAX_SEARCH_DEPTH')
+    except Exception:
+        raise AnalysisError('MAX_SEARCH_DEPTH does not fold')
+    spec, dep = f.params[1], f.params[2]
+    ins = [x for x in own_nodes(f.node) if isinstance(x, ast.Assign) and
+           isinstance(x.targets[0], ast.Name) and
+           _matches(x.value, 'self.wf_spec.find_inbound_task_specs(__s)') and
+           norm(x.value.args[0]) == spec]
+    if len(ins) != 1:
+        raise AnalysisError('parent names: inbound specs of the task not read')
+    in_name = ins[0].targets[0].id
+    t = dt.Table(ctx, f, [(dep, (1, 2, mx - 1, mx)),
+                          (in_name, ((), ('x',))),
+                          ('MAX_SEARCH_DEPTH', (mx,))],
+                 inline_exclude=(in_name,), mutable=(in_name,))
+    own = '%s.get_name()' % spec
+    rets = [n for n in t.cfg.nodes if n.kind == 'stmt' and
+            isinstance(n.ast, ast.Return)]
+    acc = None
+    ok = bool(rets)
+    for n in rets:
+        v = n.ast.value
+        if isinstance(v, ast.Set):
+            ok = ok and [norm(e) for e in v.elts] == [own]
+        elif isinstance(v, ast.Name):
+            acc = v.id
+            adds = [m for m, c in t.cfg.calls(
+                lambda c: isinstance(c.func, ast.Attribute) and
+                c.func.attr == 'add' and dotted(c.func.value) == acc and
+                [norm(a) for a in c.args] == [own])]
+            need = {x for x in t.inputs_at(n) if x[0] > 1}
+            have = set()
+            for m in adds:
+                have |= t.inputs_at(m)
+            ok = ok and need <= have and all(
+                t.cfg.must_pass(m, [n], exits=[t.cfg.exit]) for m in adds)
+        else:
+            ok = False
+    # the search is cut short (the task alone is returned) only at the
+    # depth limit or when the task has no inbound tasks
+    short = set()
+    for n in rets:
+        if isinstance(n.ast.value, ast.Set):
+            short |= t.inputs_at(n)
+    exp = {v for v in t.init_inputs if v[0] == mx or v[1] == ()}
+    rule.check(short == exp,
+               ctx.construct(f, extra='cut short only at the limit'),
+               'the search for parent names stops at the task itself in '
+               'situations other than "depth limit reached" or "no inbound '
+               'tasks" (e.g. %s): the inbound tasks of the join get no '
+               'cache entry' % (dict(zip(t.keys, sorted(
+                   short ^ exp, key=repr)[0])) if short != exp else ''),
+               ctx.loc(f))
+    add_calls = [c for c in own_nodes(f.node) if isinstance(c, ast.Call) and
+                 isinstance(c.func, ast.Attribute) and c.func.attr == 'add']
+    t.undecided(rule, 'the depth and the inbound tasks', force=add_calls)
+    rule.check(ok, ctx.construct(f, extra='own name at every depth above one'),
+               'the set of parent names does not contain the name of the '
+               'task it is computed for at depth > 1: the inbound tasks of '
+               'the join get no cache entry and existing executions are '
+               'taken for "not started"', ctx.loc(f))
+    # every inbound task is visited, one level deeper
+    loops = [x for x in own_nodes(f.node) if isinstance(x, ast.For) and
+             dotted(x.iter) == in_name]
+    okl = len(loops) == 1 and acc is not None
+    if okl:
+        lp = loops[0]
+        rec = [c for c in ast.walk(lp) if isinstance(c, ast.Call) and
+               U.call_name(c) == '_find_all_parent_task_names']
+        okl = len(rec) == 1 and norm(rec[0].args[0]) == norm(lp.target) and \
+            U.phas(rec[0].args[1] if len(rec[0].args) > 1 else
+                   (U.kwarg(rec[0], 'depth') or ast.Constant(None)),
+                   '%s + 1' % dep) and \
+            any(isinstance(c, ast.Call) and
+                isinstance(c.func, ast.Attribute) and
+                c.func.attr == 'update' and dotted(c.func.value) == acc and
+                any(r is rec[0] for r in ast.walk(c)) for c in ast.walk(lp)) \
+            and not any(isinstance(x, (ast.If, ast.Break, ast.Continue,
+                                       ast.Return)) for x in ast.walk(lp))
+    rule.check(okl, ctx.construct(f, extra='every inbound task, one deeper'),
+               'the parent names are not collected from every inbound task '
+               'at depth + 1', ctx.loc(f))
+    # every name gets an entry: the executions found, None for the rest
+    p = prog.func(DWC + '._prepare_task_executions_cache')
+    okp = U.phas(p.node, 'self._find_all_parent_task_names(%s)'
+                 % p.params[1])
+    fill = [x for x in own_nodes(p.node) if isinstance(x, ast.For)]
+    okf = False
+    for lp in fill:
+        for s_ in ast.walk(lp):
+            if isinstance(s_, ast.Assign) and isinstance(
+                    s_.targets[0], ast.Subscript) and \
+                    norm(s_.targets[0].slice) == norm(lp.target) and \
+                    isinstance(s_.value, ast.Constant) and \
+                    s_.value.value is None:
+                cfgp = ctx.cfg(p)
+                okf = U.only_guards(cfgp, cfgp.stmt_node(s_), [
+                    ('%s in %s' % (norm(lp.target),
+                                   norm(s_.targets[0].value)), False)])
+    rule.check(okp and okf, ctx.construct(p, extra='an entry for every name'),
+               'the refill does not leave an entry (execution or None) for '
+               'every parent name of the task', ctx.loc(p))
